@@ -1,7 +1,10 @@
 use crate::report::Report;
 
 pub mod c01;
+pub mod c02;
 pub mod c04;
+pub mod c05;
+pub mod c06;
 pub mod c08;
 pub mod c09;
 pub mod c10;
@@ -13,7 +16,10 @@ type RunFn = fn(&Report);
 
 pub const CHECKS: &[(&str, &str, RunFn)] = &[
     ("C01", "fault_enumeration", c01::run),
+    ("C02", "exploration", c02::run),
     ("C04", "exploration", c04::run),
+    ("C05", "exploration", c05::run),
+    ("C06", "exploration", c06::run),
     ("C08", "fault_enumeration", c08::run),
     ("C09", "exploration", c09::run),
     ("C10", "exploration", c10::run),
